@@ -336,7 +336,7 @@ def gen_mid_script(rng, big):
         fd = field_dims(n, loc, srz)
         arrays.append({"target": "field:" + sname, "name": "Density" if k == 0 else "Pressure", "type": rng.choice(TYPES),
                        "sdims": fd, "rlo": [srz[2 * i] for i in range(idim)], "wrappers": True})
-        if rng.random() < 0.6:
+        if rng.random() < 0.85:
             arrays.append({"target": "array:" + sname, "name": "ArrS%d" % k, "type": rng.choice(TYPES), "sdims": fd,
                            "rlo": [srz[2 * i] for i in range(idim)], "wrappers": False})
     setup.append("ud UD")
@@ -425,6 +425,10 @@ def gen_mid_op(rng, a, op, zero, base):
         else:
             npt = prod([max(e, 1) for e in ext])
             mrank = 1 if particle else rng.choice([1, 2, 3, rank, rank])
+            if not particle and a["target"].startswith("array:") and rlo is not None and any(rlo) and rng.random() < 0.6:
+                # a generic array under a parent with rind planes, transferred through a memory array of ANOTHER rank:
+                # the rind shift of the file range must not depend on the shape of the caller's memory
+                mrank = rng.choice([r_ for r_ in (1, 2, 3, 4) if r_ != rank])
             q = rng.random()
             if q < 0.35 and not particle and all(e >= 1 for e in ext):
                 mdims, mrange = [], []
